@@ -352,6 +352,93 @@ theorem domsHold_sound {tol : K} : ∀ (x : List K) (ds : List (Dom K)), domsHol
   | [], _ :: _, h => by simp [domsHold] at h
   | _ :: _, [], h => by simp [domsHold] at h
 
+/-! ### sensitivity (C20): perturbed right-hand sides, complementary slackness -/
+
+/-- the rows with right-hand sides `b + δ`. -/
+def perturbRows : List (Row K) → List K → List (Row K)
+  | r :: rs, d :: ds => { r with rhs := r.rhs + d } :: perturbRows rs ds
+  | rs, _ => rs
+
+theorem reduce_perturb : ∀ (rows : List (Row K)) (c y δ d : List K) (v : K),
+    reduce c rows y = some (d, v) → δ.length = rows.length →
+    reduce c (perturbRows rows δ) y = some (d, v + dot y δ)
+  | [], c, [], δ, d, v, h, hl => by
+    have : δ = [] := List.eq_nil_of_length_eq_zero (by simpa using hl)
+    subst this
+    simpa [perturbRows] using h
+  | [], c, _ :: _, δ, d, v, h, _ => by simp [reduce] at h
+  | r :: rs, c, [], δ, d, v, h, _ => by simp [reduce] at h
+  | r :: rs, c, y :: ys, [], d, v, h, hl => by simp at hl
+  | r :: rs, c, y :: ys, e :: es, d, v, h, hl => by
+    simp only [reduce] at h
+    split at h
+    · rename_i hcond
+      cases hrec : reduce (rowSub y c r.coeffs) rs ys with
+      | none => simp [hrec] at h
+      | some p =>
+        obtain ⟨d', v'⟩ := p
+        simp [hrec] at h
+        obtain ⟨rfl, rfl⟩ := h
+        have ih := reduce_perturb rs (rowSub y c r.coeffs) ys es d' v' hrec (by simpa using hl)
+        simp only [perturbRows, reduce, hcond, if_true, ih, dot_cons]
+        simp only [ef_add, ef_mul]
+        congr 2; ring
+    · simp at h
+
+/-- each term `yᵢ·(aᵢ·x − bᵢ)` of the weak-duality chain is below the total slack of the chain. -/
+theorem reduce_term_le (x : List K) : ∀ (rows : List (Row K)) (c y d : List K) (v : K),
+    reduce c rows y = some (d, v) → c.length = x.length →
+    (∀ r ∈ rows, r.coeffs.length = x.length ∧ RowSat x r) →
+    ∀ (i : Nat) (r : Row K) (yi : K), rows[i]? = some r → y[i]? = some yi →
+      signOk r.rel yi = true ∧ yi * (dot r.coeffs x - r.rhs) ≤ dot c x - dot d x - v
+  | [], c, [], d, v, _, _, _ => by intro i r yi hr; simp at hr
+  | [], c, _ :: _, d, v, h, _, _ => by simp [reduce] at h
+  | r :: rs, c, [], d, v, h, _, _ => by simp [reduce] at h
+  | r :: rs, c, y :: ys, d, v, h, hc, hrows => by
+    have hr := hrows r (by simp)
+    simp only [reduce] at h
+    split at h
+    · rename_i hcond
+      simp only [Bool.and_eq_true, decide_eq_true_eq] at hcond
+      obtain ⟨hs, hlen⟩ := hcond
+      cases hrec : reduce (rowSub y c r.coeffs) rs ys with
+      | none => simp [hrec] at h
+      | some p =>
+        obtain ⟨d', v'⟩ := p
+        simp [hrec] at h
+        obtain ⟨rfl, rfl⟩ := h
+        have hl : (rowSub y c r.coeffs).length = x.length := by
+          rw [rowSub_length y c r.coeffs hlen.symm]; exact hc
+        have hrows' : ∀ r' ∈ rs, r'.coeffs.length = x.length ∧ RowSat x r' :=
+          fun r' hr' => hrows r' (by simp [hr'])
+        have spec := reduce_spec x rs (rowSub y c r.coeffs) ys d' v' hrec hl hrows'
+        have h2 := dot_rowSub y c r.coeffs x hlen.symm
+        have h3 := signOk_mul hs hr.2
+        intro i ri yi hri hyi
+        cases i with
+        | zero =>
+          simp at hri hyi
+          subst hri; subst hyi
+          refine ⟨hs, ?_⟩
+          rw [h2] at spec
+          nlinarith [spec.2]
+        | succ j =>
+          simp at hri hyi
+          have ih := reduce_term_le x rs (rowSub y c r.coeffs) ys d' v' hrec hl hrows' j ri yi hri hyi
+          refine ⟨ih.1, ?_⟩
+          rw [h2] at ih
+          nlinarith [ih.2]
+    · simp at h
+
+theorem dot_negList : ∀ (c x : List K), dot (negList c) x = - dot c x
+  | [], x => by simp [negList]
+  | _ :: _, [] => by simp
+  | c :: cs, x :: xs => by
+    have := dot_negList cs xs
+    unfold negList at this ⊢
+    rw [List.map_cons, dot_cons, dot_cons, this]
+    simp only [ef_neg]; ring
+
 /-! ### moving along a ray -/
 
 /-- `x + t·r` -/
